@@ -10,8 +10,9 @@ Proved here for all inputs: entry without predecessor, every block reachable, su
 predecessor sets mirror each other and mention only existing blocks, `i` dominates `j` only if
 `i ≤ j`, and the graph is `Rooted` in the sense of C15 (so C15's theorems apply to every CFG and
 the two `assert!`s of `DominatorTree::new` cannot fire on it).
-The remaining clauses of C12 — a branch only as last statement with its targets among the
-successors, at most two successors, recorded loop depth — are part of the executable predicate
+A branch is only ever the last statement of its block (`C12_branch_last`).
+The remaining clauses of C12 — branch targets among the successors, at most two successors,
+recorded loop depth — are part of the executable predicate
 `CfgSpec.wfProblems`, which `checks/c12.py` evaluates on every real CFG (before and after SSA)
 and on the model's CFG; they are *not* proved for all inputs yet (`C12_full_statement` keeps the
 complete claim visible).
@@ -61,6 +62,11 @@ theorem C12_preds_in_range (body : Stmt) (bs : List Block) (ps : List Nat) (h : 
   change visit body 0 initBlocks = _ at h
   rw [h] at this
   exact this.2.2
+
+/-- a branch statement is always the last statement of its block -/
+theorem C12_branch_last (body : Stmt) (bs : List Block) (ps : List Nat) (h : lift body = .ok bs ps) :
+    ∀ (i : Nat) (b : Block), bs[i]? = some b → ∀ s, s ∈ b.stmts.dropLast → isBranch s = false :=
+  lift_branch_last body bs ps h
 
 /-- non-vacuity: `while (c) { if (d) { s } }  s'` lifts, to five blocks -/
 def exBody : Stmt :=
